@@ -136,6 +136,13 @@ def gen_secret(r, cls, slen=4, exact_len=None, avoid=()):
             v = "$1$" + "".join(r.choice(H64) for _ in range(slen)) + "$" + "".join(r.choice(H64) for _ in range(22))
         elif cls == "sha512":
             v = "$6$" + "".join(r.choice(H64) for _ in range(16)) + "$" + "".join(r.choice(H64) for _ in range(86))
+        elif cls == "juniper9bad":
+            # looks like $9$ but does not decrypt: truncated last group, foreign character, or too short
+            good = j9_encode("".join(r.choice(string.ascii_letters) for _ in range(r.randint(3, 8))), r.choice(ALPHA))
+            v = r.choice([good[:-1], good[:8] + "_" + good[9:], "$9$" + "".join(r.choice(ALPHA) for _ in range(r.randint(1, 3)))])
+            if j9_decode(v) is not None or v in avoid:
+                continue
+            return v
         elif cls == "juniper9":
             v = j9_encode("".join(r.choice(string.ascii_letters + string.digits) for _ in range(r.randint(3, 10))), r.choice(ALPHA))
         else:
